@@ -301,6 +301,8 @@ PROPS["C09"]["mc"] = {"quick": [alg("CastAlgs.tla", "CastAlgs_%d.cfg" % i, worke
                       "thorough": [alg("CastAlgs.tla", "CastAlgs_%d.cfg" % i, workers=2) for i in range(1, 14)]}
 PROPS["C15"]["mc"] = {"quick": [alg("SliceAlgs.tla", "SliceAlgs_%d.cfg" % i, workers=4) for i in (2, 4, 5)],
                       "thorough": [alg("SliceAlgs.tla", "SliceAlgs_%d.cfg" % i, workers=8) for i in range(1, 7)]}
+for _p in ("C14", "C19"):
+    PROPS[_p]["mc"] = {"quick": [], "thorough": [{"dir": "mc", "module": "MC_Float.tla", "cfg": "MC_Float_6.cfg", "workers": 8, "timeout": 3000, "xmx": "6g"}]}
 L2MC = {"dir": "mc", "module": "MC_L2.tla", "cfg": "MC_L2_b4.cfg", "workers": 6, "timeout": 3000}
 
 BEH_MODES = ["debug", "release"]
